@@ -12,8 +12,8 @@ LEVEL_TEXT = ("Deductive part (vcgen/z3, all inputs): a LOOP-BODY contract for t
               "Heuristic solver: only output constraints are specified. Bounded stand-in: whole `whatshap polyphase` runs on generated polyploid BAM/VCF scenarios (ploidy 2-4, "
               "SNVs incl. variants 1 bp apart, uneven coverage, isolated variants covered only by uninformative reads, block-cut sensitivities 0-5, --min-overlap 2-3, "
               "--only-snvs): every phased genotype is a permutation of the input genotype, only heterozygous calls are phased, the rest of the VCF is passed through, and "
-              "the phase sets of a sample are disjoint position intervals each named by (and containing, if phased) its first variant. Deductive contracts for "
-              "compute_cut_positions / the component loops of phase_single_individual are planned.")
+              "the phase sets of a sample are disjoint position intervals each named by (and containing, if phased) its first variant. "
+              "compute_cut_positions (floating point) is bounded only.")
 LEVEL_NOTE = "Seeded sampling. Trusted: scenario generator and the independent VCF differ."
 TECHNIQUE = "bounded runtime contract on run_polyphase output (genotype conformance, pass-through, interval structure) over generated polyploid scenarios"
 D_MODULES = ["contracts.polyphase_py"]
